@@ -293,8 +293,9 @@ Definition set_fullflag (d : dev) (f : bool) : dev :=
 Definition set_eof (d : dev) (final sent : bool) : dev :=
   mkDev (d_async d) (d_cap d) (d_vsize d) (d_buf d) (d_full d) final sent.
 
-(* std::vector<char>::resize(n): growing value-initialises [size, n); the put area may (after a shrinking
-   setbuf in full buffering mode) hold content beyond size(): those bytes are overwritten with zeros *)
+(* std::vector<char>::resize(n): growing value-initialises [size, n).  Content of the put area beyond size() would be
+   overwritten with zeros; Proofs3.v shows that the put area never exceeds the vector (invariant ok), so zfill is the
+   identity on every reachable state.  (It was reachable before /repo commit 00eb9d4: regression Example in Props.v.) *)
 Definition zfill (vs : N) (b : bytes) : bytes := takeN vs b ++ repeat 0 (length b - N.to_nat vs).
 Definition resize (d : dev) (n : N) : dev :=
   if d_vsize d <? n then set_buf d n (zfill (d_vsize d) (d_buf d)) else set_buf d n (d_buf d).
@@ -336,11 +337,12 @@ Definition basic_setbuf (d : dev) (c : conn) (size : N) : dev * conn :=
   let d0 := set_cap d size in
   let (d1, c1) := if size <? lenN (d_buf d0) then dev_flush d0 c else (d0, c) in
   (do_setp d1, c1).
+(* async_io_buf::setbuf: in full buffering mode only the size is remembered (it is applied by basic_device::setbuf when
+   full buffering is switched off); the vector only ever grows, the put area keeps its content *)
 Definition dev_setbuf (d : dev) (c : conn) (size : N) : dev * conn :=
   if d_full d then
     let d0 := set_cap d size in
-    let d1 := if d_vsize d0 <? size then resize d0 size else d0 in
-    (do_setp d1, c)
+    ((if d_vsize d0 <? size then resize d0 size else d0), c)
   else basic_setbuf d c size.
 Definition dev_full (d : dev) (c : conn) (b : bool) : dev * conn :=
   if Bool.eqb (d_full d) b then (d, c)
